@@ -27,6 +27,7 @@ type progFile struct {
 	co64     bool
 	mdatLast bool
 	corrupt  bool
+	tops     string // top-level boxes as built: name:large:payloadLen;...
 }
 
 func encBox(b mp4.Box) []byte {
@@ -197,7 +198,73 @@ func genProg(rng *hx.Rng, o progOpts) progFile {
 		f = append(f, mv...)
 	}
 	pf.file = hx.Exact(f)
+	d := func(name string, b []byte) string {
+		if len(b) == 0 {
+			return ""
+		}
+		return fmt.Sprintf("%s:0:%d;", name, len(b)-8)
+	}
+	mdd := fmt.Sprintf("mdat:%d:%d;", b2i(pf.large), pf.plen)
+	if pf.mdatLast {
+		pf.tops = d("ftyp", ftyp) + d("free", free1) + d("moov", mv) + mdd + d("free", free2)
+	} else {
+		pf.tops = d("ftyp", ftyp) + mdd + d("free", free2) + d("moov", mv)
+	}
+	pf.tops = strings.TrimSuffix(pf.tops, ";")
 	return pf
+}
+
+// topString is the top-level view of a decoded file: type:pos:size and for mdat :StartPos:LargeSize:len(Data):lazyDataSize
+func topString(f *mp4.File, e string) string {
+	if f == nil {
+		return e
+	}
+	var ss []string
+	pos := uint64(0)
+	for _, c := range f.Children {
+		t := fmt.Sprintf("%s:%d:%d", hx.Hex([]byte(c.Type())), pos, c.Size())
+		if m, ok := c.(*mp4.MdatBox); ok {
+			t += fmt.Sprintf(":%d:%d:%d:%d", m.StartPos, b2i(m.LargeSize), len(m.Data), m.GetLazyDataSize())
+		}
+		ss = append(ss, t)
+		pos += c.Size()
+	}
+	if len(ss) == 0 {
+		return "o:-"
+	}
+	return "o:" + strings.Join(ss, ";")
+}
+
+func emitWalk(rng *hx.Rng, file []byte, tops string, zeof bool) {
+	orc := genOracle(rng)
+	fm, fl, em, el := decodeFileBoth(file, orc, zeof)
+	fmt.Fprintf(out, "W\t%s\t%s\t%d\t%s\t%s\t%s\t%s\n", nextID(), hx.Hex(file), b2i(zeof), hx.Csv(orc), tops, topString(fm, em), topString(fl, el))
+}
+
+func corrWalk(rng *hx.Rng, n int) {
+	for i := 0; i < n; i++ {
+		pf := genProg(rng, progOpts{maxChunks: 3, maxSpc: 2, maxSize: 4})
+		emitWalk(rng, pf.file, pf.tops, i%2 == 0)
+		if i%3 == 0 { // truncated: inside the mdat payload the two modes differ (lazy seeks past the end)
+			cut := rng.Intn(len(pf.file))
+			if i%2 == 0 {
+				cut = pf.mdatPos + rng.Intn(pf.plen+17)
+				if cut > len(pf.file) {
+					cut = len(pf.file)
+				}
+			}
+			emitWalk(rng, hx.Exact(pf.file[:cut]), "-", rng.Bool())
+		}
+		if i%4 == 1 { // two mdat boxes, the first one empty (allowed in a progressive file)
+			f := append([]byte{}, pf.file[:pf.mdatPos]...)
+			f = append(f, mdatBox(nil, rng.Bool())...)
+			f = append(f, pf.file[pf.mdatPos:]...)
+			emitWalk(rng, hx.Exact(f), "-", rng.Bool())
+		}
+	}
+	for i := 0; i < n/2+1; i++ {
+		emitWalk(rng, genFragmented(rng), "-", rng.Bool())
+	}
 }
 
 // decodeFileBoth decodes the whole file in both modes through the oracle reader.
@@ -300,6 +367,9 @@ func emitSamples(rng *hx.Rng, pf progFile, zeof bool, maxIntervals int) {
 			continue
 		}
 		for _, wl := range workLens {
+			if pf.plen > 1500 && wl >= 1 && wl <= 3 {
+				continue // the extracted model is quadratic in the number of refills; small buffers are covered on small files
+			}
 			orc := genOracle(rng)
 			rm, _ := copySamples(fm, pf.file, uint32(v.a), uint32(v.b), wl, orc, zeof)
 			rl, _ := copySamples(fl, pf.file, uint32(v.a), uint32(v.b), wl, orc, zeof)
@@ -317,7 +387,11 @@ func corrSamples(rng *hx.Rng, n int) {
 		if i%7 == 6 {
 			o = progOpts{maxChunks: 3, maxSpc: 3, maxSize: 3000} // over the 4096 work buffer
 		}
-		emitSamples(rng, genProg(rng, o), i%2 == 0, 24)
+		mi := 24
+		if o.maxSize > 100 {
+			mi = 6
+		}
+		emitSamples(rng, genProg(rng, o), i%2 == 0, mi)
 	}
 	// malformed tables: chunk offsets outside the payload
 	for i := 0; i < n/3+1; i++ {
